@@ -89,7 +89,7 @@ func runC12(e *Env) error {
 		wantAll := want.String() + "|clean|G"
 		for _, route := range []string{"local", "self", "import", "from", "from-alias"} {
 			tpls := map[string]string{"main": routes[route], "lib": lib}
-			c := &Case{Templates: tpls, Main: "main", Ctx: map[string]any{"g": "G"}, FailAt: -1}
+			c := &Case{Templates: tpls, Main: "main", Ctx: map[string]any{"g": "G", "p": "OUTER-p", "q": "OUTER-q", "r": "OUTER-r", "s": "OUTER-s"}, FailAt: -1}
 			im, _, _, err := compareCase(e, c, "render-model-c12", "correspondence (Lean pipeline vs real engine) on macro programs")
 			if err != nil {
 				return err
@@ -121,6 +121,33 @@ func runC12(e *Env) error {
 		arity := rg.Intn(5)
 		if err := runSig(arity, rg.Intn(1<<arity), rg.Intn(arity+3), rg.Intn(4)); err != nil {
 			return err
+		}
+	}
+	// a library with ONE macro that calls itself, reached through every route
+	{
+		lib := "{% macro countdown(n) %}{{ n }}{% if n > 0 %},{{ countdown(n - 1) }}{% endif %}{% endmacro %}"
+		want := "3,2,1,0"
+		routes := map[string]string{
+			"local":      lib + "{{ countdown(3) }}",
+			"self":       lib + "{{ _self.countdown(3) }}",
+			"import":     "{% import 'lib1' as L %}{{ L.countdown(3) }}",
+			"from":       "{% from 'lib1' import countdown %}{{ countdown(3) }}",
+			"from-alias": "{% from 'lib1' import countdown as cd %}{{ cd(3) }}",
+			"in-loop":    "{% import 'lib1' as L %}{% for i in [1] %}{{ L.countdown(3) }}{% endfor %}",
+			"via-macro":  "{% import 'lib1' as L %}{% macro outer() %}{% import 'lib1' as M %}{{ M.countdown(3) }}{% endmacro %}{{ outer() }}",
+		}
+		for name, main := range routes {
+			tpls := map[string]string{"main": main, "lib1": lib}
+			c := &Case{Templates: tpls, Main: "main", Ctx: map[string]any{}, FailAt: -1}
+			im, _, _, err := compareCase(e, c, "render-model-c12", "correspondence on a self-recursive library macro")
+			if err != nil {
+				return err
+			}
+			r.Seen("rec:"+name, true)
+			if im.Class != "" || im.Out != want {
+				r.Violate(Violation{Key: "macro-binding-or-route", What: fmt.Sprintf("a lone recursive macro called via %s renders %q (%s %s), expected %q", name, im.Out, im.Class, truncate(im.Msg, 100), want),
+					Broken: "theorem C12_siblings / C12_routes_agree (implementation-only oracle)", Replay: map[string]any{"kind": "render", "templates": tpls, "main": "main", "want": want, "got": im.Out, "class": im.Class, "msg": im.Msg}})
+			}
 		}
 	}
 	r.Sample(map[string]any{"lib": "{% macro m(p, q = 7) %}M([{{ p }}][{{ q }}]g={{ g }};{{ sib('z') }}…){% endmacro %}", "routes": []string{"m(1)", "_self.m(1)", "L.m(1)", "from 'lib' import m", "from 'lib' import m as mm"}})
